@@ -562,7 +562,7 @@ pub fn run_case(case: &Case, prefix: Vec<u32>, profile: ChoiceProfile, all_split
 }
 
 fn profile() -> ChoiceProfile {
-    ChoiceProfile { read_faults: vec![FdClass::Front], write_faults: vec![FdClass::Back], max_points_per_class: 4, event_order: false }
+    ChoiceProfile { read_faults: vec![FdClass::Front], write_faults: vec![FdClass::Back], max_points_per_class: 4, event_order: false, ..Default::default() }
 }
 
 pub fn run_item(tier: Tier, item: usize) -> ItemResult {
